@@ -73,7 +73,7 @@ def _root(a):
 def cases_requests(tier):
     quick = tier == "quick"
     for kind in ("functions", "both", "functions-then-gradients"):
-        for (R, P, N, B) in ((2, 1, 1, 1), (2, 2, 2, 1), (3, 2, 1, 1)) + (() if quick else ((1, 1, 1, 1), (3, 1, 2, 1), (2, 3, 2, 1))):
+        for (R, P, N, B) in ((2, 1, 1, 1), (2, 2, 2, 1), (3, 2, 1, 1)) + (() if quick else ((1, 1, 1, 1), (3, 1, 2, 1), (2, 3, 2, 1), (4, 2, 2, 1), (3, 3, 2, 1), (2, 2, 3, 1))):
             for tr in (False, True):
                 for K in (0, 1):
                     yield "%s/R%dP%dN%dK%d/%s" % (kind, R, P, N, K, "transform" if tr else "plain"), {"kind": kind, "R": R, "P": P, "N": N, "B": B, "K": K, "tr": tr}
@@ -84,6 +84,9 @@ def cases_requests(tier):
         if kind == "functions":
             yield "functions/R2N2K1/batch2", {"kind": kind, "R": 2, "P": 1, "N": 2, "B": 2, "K": 1, "tr": False}
             yield "functions/R3N1K0/batch2/transform", {"kind": kind, "R": 3, "P": 1, "N": 1, "B": 2, "K": 0, "tr": True}
+            if not quick:
+                yield "functions/R2N2K1/batch3", {"kind": kind, "R": 2, "P": 1, "N": 2, "B": 3, "K": 1, "tr": False}
+                yield "functions/R3N2K1/batch3/transform", {"kind": kind, "R": 3, "P": 1, "N": 2, "B": 3, "K": 1, "tr": True}
 
 
 def scn_requests(T, case):
@@ -212,7 +215,7 @@ def scn_requests(T, case):
 
 # ------------------------------------------------------------------------------------ activity flags
 def cases_activity(tier):
-    for R, J, K in ((2, 1, 0), (3, 2, 1)):
+    for R, J, K in ((2, 1, 0), (3, 2, 1)) + (((4, 2, 2), (1, 1, 1)) if tier == "thorough" else ()):
         zero_sets = [z for z in itertools.product((False, True), repeat=R) if not all(z)]
         for zeros in zero_sets:
             yield "configured/R%dJ%dK%d/zero=%s" % (R, J, K, "".join("0" if z else "w" for z in zeros)), {"src": "config", "R": R, "J": J, "K": K, "zeros": list(zeros)}
@@ -308,7 +311,7 @@ def scn_activity_calls(T, case):
 # ------------------------------------------------------------------------------------ inertness (relational)
 def cases_inert(tier):
     for kind in ("functions", "both", "functions-then-gradients"):
-        for zero in ([0.5, 0.5, 0.0], [0.0, 1.0]):
+        for zero in ([0.5, 0.5, 0.0], [0.0, 1.0]) + (([1.0, 0.0, 0.0], [0.0, 0.25, 0.75, 0.0], [0.0, 0.5, 0.0, 0.5]) if tier == "thorough" else ()):
             for flt in (None, "abstract"):
                 yield "%s/w=%s/filter=%s" % (kind, zero, flt), {"kind": kind, "w": zero, "flt": flt}
     yield "functions/w=[0.5, 0.5, 0.0]/filter=sort-objective", {"kind": "functions", "w": [0.5, 0.5, 0.0], "flt": "sort"}
